@@ -26,6 +26,8 @@ def stop_case(draw):
           "posts_before": draw(st.integers(0, 3)), "posts_with_stop": draw(st.integers(0, 2)),
           "slow_step": 0.0 if never else draw(st.sampled_from([0.0, 0.0, 0.3, 1.0, 1.5, 3.0, 12.0])),
           "arm_early": draw(st.integers(0, 3)) == 0,   # the timed posts are made before start_at
+          # another thread arms 1-2 further sources at the very instant of the stop
+          "armer": draw(st.sampled_from([0, 0, 0, 1, 2])),
           "slow_arms": draw(st.booleans()),     # the slow handler ends by arming a timed source
           "crash": (not never) and draw(st.integers(0, 4)) == 0,  # a handler raises: the thread is gone before stop() is called
           "same_name": draw(st.integers(0, 3)) == 0,  # the other object carries the same name
@@ -45,7 +47,7 @@ class C12(Prop):
           "with 0-3 timed sources (periods 0.25-1.0, endless or 4 shots, over three signal names), a second ActiveObject "
           "subscribed to a signal, plain posts queued before the stop, one case in eight an object that armed its timers but was never started, one in four arming them before start_at, optionally live spy/trace output switched on for the object that is stopped, optionally a handler that raises (so the "
           "object's thread has already ended when stop() is called from outside), optionally a handler "
-          "that takes 0.3-12 s of virtual time and is running when stop() is called; stop() is called at a "
+          "that takes 0.3-12 s of virtual time and is running when stop() is called, optionally another thread that arms 1-2 further sources at the very instant of the stop (stop() must not raise; sources whose arming had returned before stop() was called must be silent afterwards); stop() is called at a "
           "generated virtual instant (a multiple of 0.25, so it often coincides with a timer firing "
           "or falls inside a step) either from the body thread or from one of the object's own "
           "handlers, under generated schedules. Oracle: after stop() returned to an outside caller "
@@ -127,6 +129,20 @@ class C12(Prop):
       t0 = s.now
       if not early:
         arm()
+      armed = info.setdefault("armed", [])
+
+      def armer():
+        w.ao.time.sleep(max(t0 + case["stop_at"] - s.now, 0.0))
+        for k in range(case.get("armer") or 0):
+          a = {"id": 60 + k, "inv": s.steps, "ret": None}
+          armed.append(a)
+          try:
+            chart.post_fifo(Event(signal=signals["VD"], payload=60 + k), period=0.5, times=0, deferred=(k == 0))
+          except Exception as ex:
+            a["raised"] = "%s: %s" % (type(ex).__name__, ex)
+          a["ret"] = s.steps
+      if case.get("armer") and not case.get("never_started"):
+        w.ao.Thread(target=armer, name="armer").start()
       s.wake_at(t0 + case["stop_at"])
       if case.get("crash") and case["stop_from"] == "outside":
         # the object's thread ends on its own (a handler raised); stop() is still what cleans up
@@ -180,6 +196,10 @@ class C12(Prop):
     if errs:
       name, e, tb = errs[0]
       raise PropertyViolation("thread %s died: %s: %s" % (name, type(e).__name__, e), "C12:thread-error")
+    bad = [a for a in info.get("armed", []) if a.get("raised")]
+    if bad:
+      raise PropertyViolation("a timed post made by another thread at the instant of the stop raised %s" % bad[0]["raised"],
+                              "C12:stop-raises")
     if info.get("stop_raised"):
       raise PropertyViolation("stop() of an object %s raised %s" % (
         "that was never started" if case.get("never_started") else "that was running", info["stop_raised"]),
@@ -195,6 +215,10 @@ class C12(Prop):
         raise PropertyViolation("a run-to-completion step started at step %d after stop() returned at %d" % (
           late_rtc[0][1], ret), "C12:step-after-stop")
       late = [p for p in rec.posts if p["ao"] == "ao1" and p["sig"] in ("VB", "VD", "VE") and p["inv"] > ret]
+      # (a source that the other thread armed while stop() was under way, or after it, is the
+      # user's own: only the ones whose arming had returned before stop() was called must be silent)
+      free = set(a["id"] for a in info.get("armed", []) if a["ret"] is None or a["ret"] >= info["stop_inv"])
+      late = [p for p in late if not (p["sig"] == "VD" and p["id"] in free)]
     else:
       if "handler_stop_ret" not in info:
         raise PropertyViolation("the stop request was never dispatched (dispatched %s)" % (
@@ -208,6 +232,8 @@ class C12(Prop):
         raise PropertyViolation("stop() from a handler at step %d: another step started at %d" % (
           ret, more[0][1]), "C12:step-after-stop")
       late = [p for p in rec.posts if p["ao"] == "ao1" and p["sig"] in ("VB", "VD", "VE") and p["inv"] > ret]
+      free = set(a["id"] for a in info.get("armed", []) if a["ret"] is None or a["ret"] >= info["handler_stop_inv"])
+      late = [p for p in late if not (p["sig"] == "VD" and p["id"] in free)]
     if late:
       # the known check-then-post window: at most one stray post per source, at the very instant
       # at which stop() returned
